@@ -13,9 +13,12 @@
      ma_errors             ValueError iff Q = 0 or M <= Q; AssertionError iff otherwise M >= N; nothing else
      ma_valid              [ordered] data not identically zero: rho > 0, rho is the order-M Yule-Walker power of
                            the biased autocorrelation, the MA part solves the Yule-Walker equations of the biased
-                           autocorrelation of [1,a] (Toeplitz rows = [P2,0..0], P2 > 0)
+                           autocorrelation of [1,a] (Toeplitz rows = [P2,0..0], P2 > 0), and every reflection
+                           coefficient of that run has |k| < 1 (the Schur-Cohn step from there to "zeros inside
+                           the unit circle" is not proved)
      arma_lengths          exactly P AR and Q MA coefficients (oracles of the code's shapes)
      arma_returns          it returns on: 0 < Q <= lag < N, lag+2P-Q <= N, 2Q < N-P, P <= lag (P < lag when P > 4)
+     arma_returns_iff      the exact argument set on which the code (as modelled) returns a model
      arma_ar_is_myw_ls     P = Q: the covariance method is handed [r_1..r_lag] (unbiased lags) and its normal
                            equations are those of the modified Yule-Walker system over lags Q+1..lag
      arma_residual_filter  what is handed to ma(., Q, 2Q) is (x * [1,a])[n], n = P..N-1
@@ -65,6 +68,15 @@ Theorem arma_returns (lsm lsq : list F -> nat -> list F) (x : list F) P Q lag :
   exists a b rho, arma_estimate lsm lsq x P Q lag = inr (a, b, rho).
 Proof. exact (arma_returns_thm lsm lsq x P Q lag). Qed.
 
+(* the exact set of arguments on which the code, as modelled, returns a model: compared with the stated
+   domain it also needs 0 < lag < N, P <= lag, and P < lag when P > 4 (the lstsq branch) *)
+Theorem arma_returns_iff (lsm lsq : list F -> nat -> list F) (x : list F) P Q lag :
+  (exists a b rho, arma_estimate lsm lsq x P Q lag = inr (a, b, rho)) <->
+  ((lag < length x)%nat /\ (0 < Q)%nat /\ (2 * Q + P < length x)%nat
+   /\ (lag + P <= Q \/ (P <= lag + Q + 1 /\ lag + 2 * P <= length x + Q))%nat
+   /\ (0 < lag)%nat /\ (P <= lag)%nat /\ (4 < P -> P < lag)%nat).
+Proof. exact (arma_returns_iff_thm lsm lsq x P Q lag). Qed.
+
 (* P = Q.  r(n) for n in Z is the Hermitian extension of the unbiased lags; the equations are
    A^H (A a + b) = 0 for the system  r(n) + sum_{j=1..P} a_j r(n-j) = 0,  n = Q+1 .. lag. *)
 Theorem arma_ar_is_myw_ls (lsm lsq : list F -> nat -> list F) (x : list F) P lag a b rho :
@@ -109,6 +121,7 @@ Theorem ma_valid (x : list F) Q M b rho :
   exists a k1 P2 k2 r2,
     aryule x M Biased = Some (a, rho, k1) /\ length a = M
     /\ aryule (1 :: a) Q Biased = Some (b, P2, k2) /\ pos P2
+    /\ (forall j, (j < Q)%nat -> pos (1 - nrm2 (nthF k2 j)))
     /\ acorr (1 :: a) Q Biased = Some r2
     /\ forall i, (i <= Q)%nat ->
          sumf (S Q) (fun j => afun b j * rz r2 (Z.of_nat i - Z.of_nat j)) = if (i =? 0)%nat then P2 else 0.
@@ -166,6 +179,7 @@ Print Assumptions ma_returns.
 Print Assumptions ma_errors.
 Print Assumptions arma_lengths.
 Print Assumptions arma_returns.
+Print Assumptions arma_returns_iff.
 Print Assumptions arma_ar_is_myw_ls.
 Print Assumptions arma_residual_filter.
 Print Assumptions class_psd_from_exposed.
